@@ -170,8 +170,8 @@ PROPS = {
         "level": "proof",
         "lean": ["PasfmtModel.Props.C09"],
         "streams": [
-            {"stream": "fmt", "families": ALL_FAMILIES, "quick": 2500, "thorough": 30000,
-             "binding": ["pre", "out", "*"], "args": {"oracles": "c09"}},
+            {"stream": "fmt", "families": ALL_FAMILIES + ",mlsfam", "quick": 2800, "thorough": 30000,
+             "binding": ["pre", "wc", "out", "*"], "args": {"oracles": "c09"}},
         ],
         "oracle_prefixes": ["c09", "glue"],
         "abnormal_binding": False,
